@@ -265,7 +265,102 @@ fn mode_of(s: &str) -> Option<InstrumentationMode> {
 }
 
 /// Apply one plan entry through the requested API path. Returns Err(panic message) if rejected.
-fn inject_one(module: &mut Module<'static>, e: &J) -> Result<(), String> {
+/// The module under test, either on its own or as core module 0 of a component (for the ComponentIterator paths).
+pub struct Holder {
+    comp: Option<wirm::Component<'static>>,
+    module: Option<Module<'static>>,
+}
+impl Holder {
+    pub fn m(&mut self) -> &mut Module<'static> {
+        match &mut self.comp {
+            Some(c) => &mut c.modules[0],
+            None => self.module.as_mut().expect("module"),
+        }
+    }
+}
+fn loc_instr(l: Location) -> usize {
+    match l {
+        Location::Module { instr_idx, .. } => instr_idx,
+        Location::Component { instr_idx, .. } => instr_idx,
+    }
+}
+
+/// the iterator-driven injection, for ModuleIterator and ComponentIterator alike
+macro_rules! drive_iterator {
+    ($it:ident, $mode:ident, $api_at:expr, $site:ident, $code:ident, $tag:ident) => {
+        match $mode.as_str() {
+            "func_entry" => {
+                $it.func_entry();
+                $it.inject_all(&$code);
+                if let Some(t) = &$tag {
+                    $it.append_to_tag(t.clone());
+                }
+            }
+            "func_exit" => {
+                $it.func_exit();
+                $it.inject_all(&$code);
+                if let Some(t) = &$tag {
+                    $it.append_to_tag(t.clone());
+                }
+            }
+            _ => {
+                if $api_at {
+                    // stay at instruction 0 and address the site by index
+                    let m = mode_of(&$mode).expect("inject_at needs a plain mode");
+                    for op in $code.iter() {
+                        $it.inject_at($site as usize, m, op.clone());
+                    }
+                } else {
+                    loop {
+                        if loc_instr($it.curr_loc().0) as i64 == $site {
+                            break;
+                        }
+                        if $it.next().is_none() {
+                            panic!("harness: site {} not reached", $site);
+                        }
+                    }
+                    match $mode.as_str() {
+                        "before" => {
+                            $it.before();
+                        }
+                        "after" => {
+                            $it.after();
+                        }
+                        "alternate" => {
+                            $it.alternate();
+                        }
+                        "empty_alternate" => {
+                            $it.empty_alternate();
+                        }
+                        "semantic_after" => {
+                            $it.semantic_after();
+                        }
+                        "block_entry" => {
+                            $it.block_entry();
+                        }
+                        "block_exit" => {
+                            $it.block_exit();
+                        }
+                        "block_alt" => {
+                            $it.block_alt();
+                        }
+                        "empty_block_alt" => {
+                            $it.empty_block_alt();
+                        }
+                        m => panic!("harness: mode {}", m),
+                    }
+                    $it.inject_all(&$code);
+                    if let Some(t) = &$tag {
+                        $it.append_to_tag(t.clone());
+                    }
+                    $it.finish_instr();
+                }
+            }
+        }
+    };
+}
+
+fn inject_one(h: &mut Holder, e: &J) -> Result<(), String> {
     let site = e["site"].as_i64().unwrap_or(-1);
     let mode = e["mode"].as_str().unwrap_or("").to_string();
     let api = e["api"].as_str().unwrap_or("iter").to_string();
@@ -281,82 +376,20 @@ fn inject_one(module: &mut Module<'static>, e: &J) -> Result<(), String> {
     let r = guarded(|| {
         match api.as_str() {
             "iter" | "iter_at" => {
-                let mut it = ModuleIterator::new(module, &vec![]);
-                match mode.as_str() {
-                    "func_entry" => {
-                        it.func_entry();
-                        it.inject_all(&code);
-                        if let Some(t) = &tag {
-                            it.append_to_tag(t.clone());
-                        }
-                    }
-                    "func_exit" => {
-                        it.func_exit();
-                        it.inject_all(&code);
-                        if let Some(t) = &tag {
-                            it.append_to_tag(t.clone());
-                        }
-                    }
-                    _ => {
-                        if api == "iter_at" {
-                            // stay at instruction 0 and address the site by index
-                            let m = mode_of(&mode).expect("inject_at needs a plain mode");
-                            for op in code.iter() {
-                                it.inject_at(site as usize, m, op.clone());
-                            }
-                        } else {
-                            loop {
-                                if let (Location::Module { instr_idx, .. }, _) = it.curr_loc() {
-                                    if instr_idx as i64 == site {
-                                        break;
-                                    }
-                                }
-                                if it.next().is_none() {
-                                    panic!("harness: site {} not reached", site);
-                                }
-                            }
-                            match mode.as_str() {
-                                "before" => {
-                                    it.before();
-                                }
-                                "after" => {
-                                    it.after();
-                                }
-                                "alternate" => {
-                                    it.alternate();
-                                }
-                                "empty_alternate" => {
-                                    it.empty_alternate();
-                                }
-                                "semantic_after" => {
-                                    it.semantic_after();
-                                }
-                                "block_entry" => {
-                                    it.block_entry();
-                                }
-                                "block_exit" => {
-                                    it.block_exit();
-                                }
-                                "block_alt" => {
-                                    it.block_alt();
-                                }
-                                "empty_block_alt" => {
-                                    it.empty_block_alt();
-                                }
-                                m => panic!("harness: mode {}", m),
-                            }
-                            it.inject_all(&code);
-                            if let Some(t) = &tag {
-                                it.append_to_tag(t.clone());
-                            }
-                            it.finish_instr();
-                        }
-                    }
-                }
+                let mut it = ModuleIterator::new(h.m(), &vec![]);
+                let at = api == "iter_at";
+                drive_iterator!(it, mode, at, site, code, tag);
+            }
+            "comp" | "comp_at" => {
+                // the same through a ComponentIterator over the component that holds the module
+                let comp = h.comp.as_mut().expect("harness: comp api without a component");
+                let mut it = wirm::iterator::component_iterator::ComponentIterator::new(comp, std::collections::HashMap::new());
+                let at = api == "comp_at";
+                drive_iterator!(it, mode, at, site, code, tag);
             }
             _ => {
                 // "mod" (FunctionModifier at a location) and "mod_at" (FunctionModifier::inject_at)
-                let mut fm = module.functions.get_fn_modifier(fid).expect("no function modifier");
+                let mut fm = h.m().functions.get_fn_modifier(fid).expect("no function modifier");
                 let loc = Location::Module { func_idx: fid, instr_idx: site.max(0) as usize };
                 match mode.as_str() {
                     "func_entry" => {
@@ -423,7 +456,7 @@ fn inject_one(module: &mut Module<'static>, e: &J) -> Result<(), String> {
     });
     // reset a function-level mode left behind by func_entry()/func_exit() (get_fn_modifier does it)
     let _ = guarded(|| {
-        let _ = module.functions.get_fn_modifier(fid);
+        let _ = h.m().functions.get_fn_modifier(fid);
     });
     r
 }
@@ -461,16 +494,31 @@ pub fn run_case(case: &J, enc2: bool) -> CaseOut {
     }
     let via_replace = case["pre"].as_str() == Some("via_replace");
     let input = if via_replace { build_module_x(&body, arity, nlocals, true) } else { input };
-    let input = leak(input);
-    let mut module = match guarded(|| Module::parse(input, false)) {
-        Ok(Ok(m)) => m,
-        Ok(Err(e)) => {
-            ev["skip"] = json!(format!("parse error: {:?}", e));
-            return CaseOut { ev, bytes: None, second: None };
+    // plans that use a ComponentIterator path run on the module wrapped in a component
+    let uses_comp = plan.iter().any(|e| e["api"].as_str().map(|a| a.starts_with("comp")).unwrap_or(false));
+    let mut h = if uses_comp {
+        let mut c = wasm_encoder::Component::new();
+        c.section(&wasm_encoder::RawSection { id: wasm_encoder::ComponentSectionId::CoreModule as u8, data: &input });
+        let cbytes = leak(c.finish());
+        match guarded(|| wirm::Component::parse(cbytes, false)) {
+            Ok(Ok(c)) => Holder { comp: Some(c), module: None },
+            other => {
+                ev["skip"] = json!(format!("component parse: {:?}", other.err()));
+                return CaseOut { ev, bytes: None, second: None };
+            }
         }
-        Err(p) => {
-            ev["skip"] = json!(format!("parse panic: {}", p));
-            return CaseOut { ev, bytes: None, second: None };
+    } else {
+        let input = leak(input);
+        match guarded(|| Module::parse(input, false)) {
+            Ok(Ok(m)) => Holder { comp: None, module: Some(m) },
+            Ok(Err(e)) => {
+                ev["skip"] = json!(format!("parse error: {:?}", e));
+                return CaseOut { ev, bytes: None, second: None };
+            }
+            Err(p) => {
+                ev["skip"] = json!(format!("parse panic: {}", p));
+                return CaseOut { ev, bytes: None, second: None };
+            }
         }
     };
     if let Ok(mut g) = LOGS.lock() {
@@ -480,10 +528,10 @@ pub fn run_case(case: &J, enc2: bool) -> CaseOut {
     match case["pre"].as_str().unwrap_or("") {
         "del_imp" => {
             // delete the (unused) imported function op7: everything behind it moves down by one
-            let _ = guarded(|| module.delete_func(FunctionID(N_OP - 1)));
+            let _ = guarded(|| h.m().delete_func(FunctionID(N_OP - 1)));
         }
         "add_imp" => {
-            let _ = guarded(|| module.add_import_func("env".to_string(), "extra".to_string(), wirm::ir::id::TypeID(0)));
+            let _ = guarded(|| h.m().add_import_func("env".to_string(), "extra".to_string(), wirm::ir::id::TypeID(0)));
         }
         "via_replace" => {
             // the module has no local function: the body under test is built and replaces the last import
@@ -503,7 +551,7 @@ pub fn run_case(case: &J, enc2: bool) -> CaseOut {
                     }
                     fb.inject(instr_to_op(i, 0, &|r| if r == 0 { wasmparser::BlockType::Empty } else { wasmparser::BlockType::Type(wasmparser::ValType::I32) }));
                 }
-                fb.replace_import_in_module(&mut module, wirm::ir::id::ImportsID(N_OP + N_COND + N_PROBE));
+                fb.replace_import_in_module(h.m(), wirm::ir::id::ImportsID(N_OP + N_COND + N_PROBE));
             });
             if let Err(m) = r {
                 ev["skip"] = json!(format!("harness: via_replace failed: {}", m));
@@ -518,7 +566,7 @@ pub fn run_case(case: &J, enc2: bool) -> CaseOut {
     let mut plan_out = vec![];
     for e in plan.iter() {
         let mut pe = e.clone();
-        match inject_one(&mut module, e) {
+        match inject_one(&mut h, e) {
             Ok(()) => pe["acc"] = json!(true),
             Err(m) => {
                 pe["acc"] = json!(false);
@@ -528,7 +576,7 @@ pub fn run_case(case: &J, enc2: bool) -> CaseOut {
         plan_out.push(pe);
     }
     ev["plan"] = json!(plan_out);
-    let r = guarded(|| module.encode());
+    let r = guarded(|| h.m().encode());
     let bugs: Vec<String> = LOGS.lock().map(|g| g.clone()).unwrap_or_default();
     ev["bugs"] = json!(bugs);
     match r {
@@ -561,7 +609,7 @@ pub fn run_case(case: &J, enc2: bool) -> CaseOut {
             }
             let mut second = None;
             let same2 = if enc2 {
-                match guarded(|| module.encode()) {
+                match guarded(|| h.m().encode()) {
                     Ok(o2) => {
                         if o2 != out {
                             let mut e2 = ev.clone();
@@ -635,6 +683,21 @@ pub fn main(args: &[String]) {
         }
         if !first.ev["skip"].is_null() {
             skipped += 1;
+        }
+        // C26: the same plan through module-level iterators must give the same encoded module
+        let uses_comp = case["plan"].as_array().map(|p| p.iter().any(|e| e["api"].as_str().map(|a| a.starts_with("comp")).unwrap_or(false))).unwrap_or(false);
+        if uses_comp && first.ev["skip"].is_null() {
+            let mut twin = case.clone();
+            for e in twin["plan"].as_array_mut().unwrap().iter_mut() {
+                let a = e["api"].as_str().unwrap_or("").to_string();
+                if a == "comp" {
+                    e["api"] = json!("iter");
+                } else if a == "comp_at" {
+                    e["api"] = json!("iter_at");
+                }
+            }
+            let t = run_case(&twin, false);
+            first.ev["twin_same"] = json!(t.bytes == first.bytes);
         }
         out.ev(first.ev);
         if let Some(s) = first.second {
